@@ -105,7 +105,10 @@ SchemaDiff(M, real) ==
       \* where the mismatch sits: fields of a message embedded into a message below the root
       here == IF M.hasembed /\ M.depth > 0 THEN "embed-below-root" ELSE ""
       trigOf(F) == IF here # "" THEN here ELSE IF F.msg # NoMsg /\ SubOf(F).hasembed THEN "sub-embed-below-root" ELSE ""
-  IN {IF a \in injected THEN VG("C10.injected", PathOf(M, a)) ELSE V("C02.bijection", fieldOf(a), "attribute missing " \o here) : a \in mn \ rn}
+  IN {IF a \in injected THEN VG("C10.injected", PathOf(M, a))
+      \* (the placeholder of a message without fields is C10's to state, like its type and flags below)
+      ELSE IF fieldOf(a).placeholder THEN V("C10.placeholder", fieldOf(a), "attribute missing")
+      ELSE V("C02.bijection", fieldOf(a), "attribute missing " \o here) : a \in mn \ rn}
      \cup {[c |-> "C02.bijection", p |-> PathOf(M, a) \o " unexpected attribute", sig |-> here] : a \in rn \ mn}
      \cup UNION {
        LET r == real[a]
